@@ -16,10 +16,10 @@ RULE = ('case = header program: object kind (Response / HTTPResponse / HTTPError
         'bool, None, bytes, list, tuple, dict. Oracle vs a model (name -> list of texts): a value whose text has CR/LF/NUL must raise and nothing '
         'with CR/LF/NUL is ever in headerlist / the start_response list; a clean str/int/float/bool/None is accepted; every emitted value is str, '
         'Latin-1 encodable and .encode(latin1).decode(utf8) == str(value); values of a name are emitted once each in order; blacklisted entity '
-        'headers are absent for 204/304; default Content-Type only when allowed and not set. Plus: a 204 / 304 response with blacklisted headers on one thread against a plain request on another thread of the same application, every single-preemption schedule. Non-trivial = an injected control character, a '
+        'headers are absent for 204/304; values handed to set_cookie (plain, quoted, half-quoted, with CR/LF/NUL) may be escaped or refused but the emitted Set-Cookie value obeys the same wire rules; default Content-Type only when allowed and not set. Plus: a 204 / 304 response with blacklisted headers on one thread against a plain request on another thread of the same application, every single-preemption schedule. Non-trivial = an injected control character, a '
         'non-ASCII or non-str value, a multi-valued header, or a 204/304 status with a blacklisted header present; distinct by case hash.')
 ASSUMPTIONS = ['header names are given in canonical case (the blacklist is keyed on canonical names)',
-               'HeaderDict.update, list-valued setdefault and cookie attributes are not among the setters the property lists (not judged)']
+               'HeaderDict.update, list-valued setdefault and cookie attributes are not among the setters the property lists (not judged); cookie VALUES are judged only as emitted, within Latin-1 (above it: finding K15 of C15)']
 
 BAD = {204: {'Content-Type'},
        304: {'Allow', 'Content-Encoding', 'Content-Language', 'Content-Length', 'Content-Range', 'Content-Type', 'Content-Md5', 'Last-Modified'}}
@@ -60,6 +60,10 @@ VALUE = st.one_of(
     st.sampled_from([b'bytes', b'a\r\nb']).map(lambda b: ['bytes', b]),
     st.sampled_from([['list', ['a', 'b']], ['list', ['a\r\nX: y']], ['tuple', ['a', 'b']], ['dict', {'a': 'b'}]]),
 )
+# cookie values: Latin-1 text (values above Latin-1 are the open finding K15 of C15), control characters, in plain, quoted and half-quoted shapes
+_ctext = st.one_of(st.sampled_from(['v', 'a b', 'a;b', 'a,b', 'é', 'a\\b', '', 'abc\r\nX-Injected:1', 'a\rb', 'a\nb', 'a\0b', '\r\n', 'x\r\n y', 'Set-Cookie:\nz=1', '\x7f', '\x1f']),
+                   st.text(st.characters(max_codepoint=255), max_size=10))
+COOKIE_VALUE = st.builds(lambda t, q: [t, '"' + t + '"', '"' + t, t + '"', '""' + t + '""', "'" + t + "'"][q], _ctext, st.integers(0, 5))
 ENTRY = st.sampled_from(['setitem', 'setitem', 'append', 'append', 'append', 'setdefault', 'content_type', 'content_length', 'expires'])
 CTOR = st.sampled_from(['ctor_dict', 'ctor_pairs', 'ctor_kw'])
 
@@ -75,6 +79,8 @@ def case_st(draw):
     names = draw(st.lists(st.sampled_from(NAMES), min_size=1, max_size=3))
     for _ in range(draw(st.integers(1 if not ops else 0, 5))):
         ops.append([draw(ENTRY), draw(st.sampled_from(names)), draw(VALUE)])
+    if draw(st.integers(0, 3)) == 0:
+        ops.insert(draw(st.integers(0, len(ops))), ['set_cookie', draw(st.sampled_from(['c', 'sid'])), ['str', draw(COOKIE_VALUE)]])
     return {'kind': kind, 'status': draw(st.sampled_from([200, 200, 201, 204, 204, 206, 304, 304, 404, 500])),
             'status_first': draw(st.booleans()), 'ops': ops}
 
@@ -102,10 +108,16 @@ class Model:
     def __init__(self):
         self.h = {}
         self.rejected = []       # texts that must never be emitted
+        self.cookies = False
         self.lenient = False     # a non-simple type was accepted: exact comparison is waived for that name
 
     def apply(self, entry, name, v, raised, exc):
         """Update the model with the observed outcome; raise CheckFailure if the outcome itself is wrong."""
+        if entry == 'set_cookie':
+            # not one of the single-value setters: it may accept (and escape) or reject; only what is EMITTED under Set-Cookie is judged
+            if not raised:
+                self.cookies = True
+            return
         if entry == 'content_type':
             name, entry = 'Content-Type', 'setitem'
         elif entry == 'content_length':
@@ -167,6 +179,8 @@ def _do(obj, entry, name, v):
         obj.content_length = val
     elif entry == 'expires':
         obj.expires = val
+    elif entry == 'set_cookie':
+        obj.set_cookie(name, val)
     else:
         raise AssertionError(entry)
 
@@ -276,7 +290,7 @@ def _judge(emitted, model, status, what, extra_ok=()):
         if back != vs:
             raise CheckFailure(f'{what}: header {k} emitted as {back!r}, set values in order {vs!r}')
     for k in by_name:
-        if k not in exp and k not in extra_ok:
+        if k not in exp and k not in extra_ok and not (k == 'Set-Cookie' and model.cookies):
             raise CheckFailure(f'{what}: unexpected header {k}: {by_name[k]!r} (model {model.h!r})')
 
 
@@ -439,6 +453,13 @@ def run(ctx):
                         ops.append([e, name, ['str', s]])
                         ctx.guarded(check_case, {'kind': kind, 'status': 200, 'status_first': True, 'ops': ops})
         ctx.count('injection_grid')
+        # set_cookie with every injection shape, plain / quoted / half-quoted, next to a clean header
+        for s in shapes + ['abc\r\nX-Injected:1', 'abc\0', 'a\r\nSet-Cookie:z=1']:
+            for q in ('%s', '"%s"', '"%s', '%s"', "'%s'"):
+                for kind in ('Response', 'HTTPResponse', 'HTTPError', 'wsgi_response', 'wsgi_returned', 'wsgi_raised'):
+                    ctx.guarded(check_case, {'kind': kind, 'status': 200, 'status_first': True,
+                                             'ops': [['setitem', 'X-Test', ['str', 'v']], ['set_cookie', 'c', ['str', q % s]]]})
+        ctx.count('cookie_injection_grid')
     n = 4000 if ctx.tier == 'quick' else 40000
     ctx.hyp(case_st(), check_case, n)
 
